@@ -17,24 +17,56 @@
 (* UDP request header again and sent to the application, and that header must carry the destination       *)
 (* the application addressed (the parsed header re-encoded).  Named deviation ReplySubst: the reply is     *)
 (* headed by the address the query was sent to.                                                            *)
+(* Round 5 - destinations are TEXT inside the relay: parseUDPHeader hands a host string on, the session table    *)
+(* is keyed by "host:port", the virtual-DNS test compares the string, and every reply header is that string     *)
+(* classified again by buildUDPHeader.  A key is [d, sp]: the destination it denotes and its spelling ("v4"     *)
+(* dotted quad, "v6" IPv6 text, "nm" name).  With net.IP an IPv4-mapped IPv6 address is spelled as the dotted    *)
+(* quad, so ATYP=1 a.b.c.d and ATYP=4 ::ffff:a.b.c.d are ONE key; the named deviation NetipText (net/netip         *)
+(* spelling, seeded change r5m3) keeps the IPv6 text: two sessions for one destination, and ::ffff:10.0.0.1:53    *)
+(* is no longer the virtual DNS address.  Reply headers are unaffected (the encoder maps both spellings to        *)
+(* ATYP=1), which is why the fault is invisible end to end and is caught at the parser's round trip.              *)
+(* Datagrams carry an address VALUE CLASS `cls` (Socks5Ref: V4Val / V6Val / name classes; concretised by the      *)
+(* driver) and `alias`: datagram 2 names datagram 1's destination in the other IP encoding.                       *)
 (* Behaviours: every sequence of K datagrams over header class (IPv4 10 / domain / IPv6 22 octets)     *)
 (* x payload size class (S, L), optionally a malformed datagram in between, optionally two datagrams   *)
 (* for the same destination, x the number r of datagrams received before the first forward is let go.  *)
 EXTENDS Naturals, Sequences, FiniteSets, TLC, Json
 
-CONSTANTS Emit, MaxK, Alias, ReplySubst
+CONSTANTS Emit, MaxK, Alias, ReplySubst,
+          NetipText,    \* DEVIATION: the parser spells IP addresses with net/netip (FALSE on a conforming tree)
+          ValClasses    \* TRUE: the address value classes and the alias pairs are enumerated
 
 HdrLen(a) == CASE a = 1 -> 10 [] a = 3 -> 12 [] a = 4 -> 22      \* domain: representative 5+5+2
 PayLen(p) == IF p = "S" THEN 2 ELSE 5
 \* route: "tunnel" any port but 53; "dns" port 53 at an ordinary address; "vdns" port 53 at the virtual DNS address
-Dg == [atyp : {1, 3, 4}, pay : {"S", "L"}, route : {"tunnel"}]
-DgDns == [atyp : {1, 3, 4}, pay : {"S"}, route : {"tunnel", "dns"}] \cup {[atyp |-> 1, pay |-> "S", route |-> "vdns"]}
+Dg == [atyp : {1, 3, 4}, pay : {"S", "L"}, route : {"tunnel"}, cls : {"gen"}]
+DgDns == [atyp : {1, 3, 4}, pay : {"S"}, route : {"tunnel", "dns"}, cls : {"gen"}]
+         \cup {[atyp |-> 1, pay |-> "S", route |-> "vdns", cls |-> "vdns"]}
+\* address value classes per ATYP (names: also the length extremes)
+ClsOf(a) == CASE a = 1 -> {"zero", "bcast", "vdns", "loop"}
+              [] a = 4 -> {"unspec", "loop", "mapped", "mapvdns", "compat", "linklocal", "zrun", "lead0", "full"}
+              [] a = 3 -> {"num", "v4lit", "v6lit", "v6alt", "maplit", "lead0", "dot", "upper", "len1", "len255"}
+IsVdns(d) == d.cls \in {"vdns", "mapvdns"}
+MappedCls(d) == d.atyp = 4 /\ d.cls \in {"mapped", "mapvdns"}
+Gen2 == [atyp |-> 1, pay |-> "L", route |-> "tunnel", cls |-> "gen"]
+\* one datagram of every value class (tunnelled; and as a DNS query through the control channel), then a generic one
+ValShapes(rt) == {<<[atyp |-> a, pay |-> "S", route |-> (IF rt = "dns" /\ k \in {"vdns", "mapvdns"} THEN "vdns" ELSE rt), cls |-> k], Gen2>>
+                    : <<a, k>> \in UNION {{<<a, k>> : k \in ClsOf(a)} : a \in {1, 3, 4}}}
+\* the same destination in both IP encodings, either order (tunnelled; and the virtual DNS address as a query)
+AliasShapes(rt) == LET v4 == [atyp |-> 1, pay |-> "S", route |-> rt, cls |-> IF rt = "vdns" THEN "vdns" ELSE "gen"]
+                       m6 == [atyp |-> 4, pay |-> "S", route |-> rt, cls |-> IF rt = "vdns" THEN "mapvdns" ELSE "mapped"]
+                   IN {<<v4, m6>>, <<m6, v4>>}
 Shapes == UNION {[1..k -> Dg] : k \in 2..MaxK}
 DnsShapes == {s \in [1..2 -> DgDns] : \E i \in 1..2 : s[i].route # "tunnel"}
 \* hdl: a DNS query handler is installed (the client always installs one; a bare relay has none)
-Cases == {[dgs |-> s, bad |-> b, same |-> sm, r |-> r, hdl |-> FALSE] :
+Cases == {[dgs |-> s, bad |-> b, same |-> sm, alias |-> FALSE, r |-> r, hdl |-> FALSE] :
             s \in Shapes, b \in {"none", "frag", "short"}, sm \in BOOLEAN, r \in 1..MaxK}
-    \cup {[dgs |-> s, bad |-> "none", same |-> FALSE, r |-> 2, hdl |-> h] : s \in DnsShapes, h \in BOOLEAN}
+    \cup {[dgs |-> s, bad |-> "none", same |-> FALSE, alias |-> FALSE, r |-> 2, hdl |-> h] : s \in DnsShapes, h \in BOOLEAN}
+    \cup (IF ~ValClasses THEN {} ELSE
+            {[dgs |-> s, bad |-> "none", same |-> FALSE, alias |-> FALSE, r |-> 2, hdl |-> FALSE] : s \in ValShapes("tunnel")}
+       \cup {[dgs |-> s, bad |-> "none", same |-> FALSE, alias |-> FALSE, r |-> 2, hdl |-> TRUE] : s \in ValShapes("dns")}
+       \cup {[dgs |-> s, bad |-> "none", same |-> FALSE, alias |-> TRUE, r |-> r, hdl |-> FALSE] : s \in AliasShapes("tunnel"), r \in 1..2}
+       \cup {[dgs |-> s, bad |-> "none", same |-> FALSE, alias |-> TRUE, r |-> 2, hdl |-> TRUE] : s \in AliasShapes("vdns")})
 Valid(cs) == /\ cs.r <= Len(cs.dgs)
              /\ cs.same => (Len(cs.dgs) = 2 /\ cs.dgs[1].atyp = cs.dgs[2].atyp /\ cs.bad = "none")
              /\ cs.bad # "none" => cs.r >= 2       \* the malformed one travels between datagram 1 and 2
@@ -45,23 +77,34 @@ VARIABLES cs,       \* the case
           badSeen,  \* the malformed datagram (if any) has been received and dropped
           buf,      \* the read buffer: sequence of abstract octets
           pending,  \* set of [i, off, len, copy]: forwards not yet performed
-          fwd,      \* set of [i, via, dest, payload] handed on: via "tunnel" (dest = session) or "dns" (dest = server asked)
-          replies,  \* set of [i, hdr]: response datagrams sent back to the application, hdr = address in their header
+          fwd,      \* set of [i, via, dest, payload] handed on: via "tunnel" (dest = session key) or "dns" (dest = key of the server asked)
+          replies,  \* set of [i, hdr]: response datagrams sent back to the application, hdr = destination named by their header
+          sess,     \* session table: the keys ("host:port" texts) a tunnel exists for
           open,     \* the first tunnel has been created / the first query answered (forwards may proceed)
           dev
-vars == <<cs, nrecv, badSeen, buf, pending, fwd, replies, open, dev>>
+vars == <<cs, nrecv, badSeen, buf, pending, fwd, replies, sess, open, dev>>
 
 K == Len(cs.dgs)
 N(i) == HdrLen(cs.dgs[i].atyp) + PayLen(cs.dgs[i].pay)
 Octets(i) == [j \in 1..N(i) |-> <<i, j>>]
 Payload(i) == [j \in 1..PayLen(cs.dgs[i].pay) |-> <<i, HdrLen(cs.dgs[i].atyp) + j>>]
-Dest(i) == IF cs.same THEN 1 ELSE i
+Dest(i) == IF cs.same \/ cs.alias THEN 1 ELSE i               \* the destination datagram i names (reference reading)
+\* parseUDPHeader: the text handed on for datagram i = the key of its session
+Spell(d) == CASE d.atyp = 1 -> "v4"
+              [] d.atyp = 4 -> (IF MappedCls(d) /\ ~NetipText THEN "v4" ELSE "v6")
+              [] OTHER -> "nm"
+Key(i) == [d |-> Dest(i), sp |-> Spell(cs.dgs[i])]
+Resolver == [d |-> 0, sp |-> "v4"]                             \* the resolver that stands behind the virtual DNS address
+\* buildUDPHeader: the destination the re-encoded text names (both spellings of a mapped address -> ATYP=1: the same destination)
+Enc(k) == k.d
 ViaDns(i) == cs.hdl /\ cs.dgs[i].route # "tunnel"
-Asked(i) == IF cs.dgs[i].route = "vdns" THEN 0 ELSE Dest(i)     \* where the query really goes (0 = the resolver behind the virtual address)
+\* handlePacket: `dstHost == VirtualDNSIP` is a comparison of TEXT - only the dotted-quad spelling is the virtual address
+Intercepted(i) == IsVdns(cs.dgs[i]) /\ Key(i).sp = "v4"
+Asked(i) == IF Intercepted(i) THEN Resolver ELSE Key(i)         \* where the query really goes
 Overwrite(b, o) == [j \in 1..(IF Len(b) > Len(o) THEN Len(b) ELSE Len(o)) |-> IF j <= Len(o) THEN o[j] ELSE b[j]]
 
 Init == /\ cs \in {x \in Cases : Valid(x)}
-        /\ nrecv = 0 /\ badSeen = FALSE /\ buf = <<>> /\ pending = {} /\ fwd = {} /\ replies = {}
+        /\ nrecv = 0 /\ badSeen = FALSE /\ buf = <<>> /\ pending = {} /\ fwd = {} /\ replies = {} /\ sess = {}
         /\ open = FALSE /\ dev = FALSE
 
 BadDue == cs.bad # "none" /\ ~badSeen /\ nrecv = 1
@@ -69,7 +112,7 @@ BadDue == cs.bad # "none" /\ ~badSeen /\ nrecv = 1
 RecvBad == /\ BadDue
            /\ buf' = Overwrite(buf, [j \in 1..(IF cs.bad = "short" THEN 6 ELSE 12) |-> <<0, j>>])
            /\ badSeen' = TRUE
-           /\ UNCHANGED <<cs, nrecv, pending, fwd, replies, open, dev>>
+           /\ UNCHANGED <<cs, nrecv, pending, fwd, replies, sess, open, dev>>
 \* readLoop: next valid datagram; at most r of them before the first forward is let go
 Recv == /\ nrecv < K /\ ~BadDue
         /\ (nrecv < cs.r \/ open)
@@ -78,29 +121,31 @@ Recv == /\ nrecv < K /\ ~BadDue
            /\ pending' = pending \cup {[i |-> i, off |-> HdrLen(cs.dgs[i].atyp), len |-> PayLen(cs.dgs[i].pay),
                                         copy |-> Payload(i)]}
            /\ nrecv' = i
-        /\ UNCHANGED <<cs, badSeen, fwd, replies, open, dev>>
+        /\ UNCHANGED <<cs, badSeen, fwd, replies, sess, open, dev>>
 \* the tunnel for the first datagram's destination is ready once r datagrams have arrived
 Open == /\ ~open /\ nrecv >= cs.r /\ ~BadDue
         /\ open' = TRUE
-        /\ UNCHANGED <<cs, nrecv, badSeen, buf, pending, fwd, replies, dev>>
+        /\ UNCHANGED <<cs, nrecv, badSeen, buf, pending, fwd, replies, sess, dev>>
 \* handlePacket: tunnel route -> session.SendPacket; DNS route -> handler.QueryDNS and, at once, the reply datagram
 Forward(p) == /\ open /\ p \in pending
               /\ LET pl == IF Alias THEN [j \in 1..p.len |-> buf[p.off + j]] ELSE p.copy
-                     hdr == IF ReplySubst THEN Asked(p.i) ELSE Dest(p.i)
+                     hdr == Enc(IF ReplySubst THEN Asked(p.i) ELSE Key(p.i))
                  IN
                  /\ fwd' = fwd \cup {[i |-> p.i, via |-> IF ViaDns(p.i) THEN "dns" ELSE "tunnel",
-                                       dest |-> IF ViaDns(p.i) THEN Asked(p.i) ELSE Dest(p.i), payload |-> pl]}
+                                       dest |-> IF ViaDns(p.i) THEN Asked(p.i) ELSE Key(p.i), payload |-> pl]}
+                 /\ sess' = IF ViaDns(p.i) THEN sess ELSE sess \cup {Key(p.i)}        \* getOrCreateSession
                  /\ replies' = IF ViaDns(p.i) THEN replies \cup {[i |-> p.i, hdr |-> hdr]} ELSE replies
-                 /\ dev' = (dev \/ pl # p.copy \/ (ViaDns(p.i) /\ hdr # Dest(p.i)))
+                 /\ dev' = (dev \/ pl # p.copy \/ (ViaDns(p.i) /\ hdr # Dest(p.i))
+                                \/ (NetipText /\ MappedCls(cs.dgs[p.i]) /\ (cs.alias \/ IsVdns(cs.dgs[p.i]))))
               /\ pending' = pending \ {p}
               /\ UNCHANGED <<cs, nrecv, badSeen, buf, open>>
 \* session.receiveLoop: a response arrives from the tunnel of an already forwarded datagram
 TunnelReply(f) == /\ f \in fwd /\ f.via = "tunnel" /\ ~\E x \in replies : x.i = f.i
-                  /\ replies' = replies \cup {[i |-> f.i, hdr |-> f.dest]}
-                  /\ UNCHANGED <<cs, nrecv, badSeen, buf, pending, fwd, open, dev>>
+                  /\ replies' = replies \cup {[i |-> f.i, hdr |-> Enc(f.dest)]}
+                  /\ UNCHANGED <<cs, nrecv, badSeen, buf, pending, fwd, sess, open, dev>>
 
 Finished == nrecv = K /\ pending = {} /\ open /\ {x.i : x \in replies} = 1..K
-BehOf == [kind |-> "relay", dgs |-> cs.dgs, bad |-> cs.bad, same |-> cs.same, r |-> cs.r, hdl |-> cs.hdl]
+BehOf == [kind |-> "relay", dgs |-> cs.dgs, bad |-> cs.bad, same |-> cs.same, alias |-> cs.alias, r |-> cs.r, hdl |-> cs.hdl]
 Done == /\ Finished /\ (IF Emit THEN PrintT("BEH " \o ToJson(BehOf)) ELSE TRUE) /\ UNCHANGED vars
 Next == RecvBad \/ Recv \/ Open \/ (\E p \in pending : Forward(p)) \/ (\E f \in fwd : TunnelReply(f)) \/ Done
 Spec == Init /\ [][Next]_vars
@@ -108,7 +153,8 @@ Spec == Init /\ [][Next]_vars
 \* ---- the property at this level ----------------------------------------------------------------
 \* what was handed on for datagram i is the octets that followed its header, for its destination (a query for
 \* the virtual DNS address goes to the resolver that stands behind it)
-Intact == \A f \in fwd : f.payload = Payload(f.i) /\ f.dest = (IF f.via = "dns" THEN Asked(f.i) ELSE Dest(f.i))
+Intact == \A f \in fwd : f.payload = Payload(f.i) /\ (f.dest = Resolver \/ f.dest.d = Dest(f.i))
+                             /\ (f.dest = Resolver => (f.via = "dns" /\ IsVdns(cs.dgs[f.i])))
 \* the header of a response datagram is the re-encoded header of the datagram it answers
 ReplyIntact == \A x \in replies : x.hdr = Dest(x.i)
 Faithful == (Intact /\ ReplyIntact) \/ dev
@@ -116,6 +162,10 @@ Faithful == (Intact /\ ReplyIntact) \/ dev
 Complete == Finished => /\ Cardinality(fwd) = K
                         /\ {f.i : f \in fwd} = 1..K
                         /\ Cardinality(replies) = K
+\* design level (RFC 1928 fixes neither; not judged on the code): destination identity inside the relay is the key text -
+\* one session per destination, and the virtual DNS address is recognised in either encoding
+OneSessionPerDest == \A k1, k2 \in sess : k1.d = k2.d => k1 = k2
+VdnsRecognised == \A f \in fwd : (f.via = "dns" /\ IsVdns(cs.dgs[f.i])) => f.dest = Resolver
 NoDev == ~dev
-TypeOK == nrecv \in 0..K /\ open \in BOOLEAN /\ Cardinality(pending) <= K
+TypeOK == nrecv \in 0..K /\ open \in BOOLEAN /\ Cardinality(pending) <= K /\ Cardinality(sess) <= K
 =============================================================================
